@@ -11,7 +11,7 @@ import bluesky.plans as bp
 import bluesky.preprocessors as bpp
 from bluesky.utils import Msg
 
-from vf.devices import Det, Flyer, LocMotor, Motor, Sig
+from vf.devices import AsyncLocMotor, Det, Flyer, LocMotor, Motor, Sig
 
 
 def devices(h, faults=None, motor_delay=0.1, det_delay=0.05):
@@ -24,8 +24,9 @@ def devices(h, faults=None, motor_delay=0.1, det_delay=0.05):
     sig2 = Sig("sig2", lg, faults)
     fly = Flyer("fly", lg, faults, delay=det_delay)
     lm = LocMotor("lm", lg, faults, delay=motor_delay)
+    alm = [AsyncLocMotor(f"alm{i}", lg, faults, delay=motor_delay) for i in range(2)]
     kd = {f"kdet{i}": Det(f"kdet{i}", lg, faults, delay=None, motors=[m1]) for i in range(4)}
-    return {"m1": m1, "m2": m2, "det": det, "det2": det2, "sig": sig, "fly": fly, "lm": lm, "sig2": sig2, **kd}
+    return {"m1": m1, "m2": m2, "det": det, "det2": det2, "sig": sig, "fly": fly, "lm": lm, "sig2": sig2, "alm0": alm[0], "alm1": alm[1], **kd}
 
 
 def P(h, *what):
@@ -276,6 +277,48 @@ def p_nested(h, d):
 
 def p_fly(h, d):
     return bp.fly([d["fly"]])
+
+
+def p_late_wait(h, d):
+    """a set whose group is waited for only after later checkpoints (an interruption in between must not lose the status)."""
+    det, m1, m2 = d["det"], d["m1"], d["m2"]
+
+    def body():
+        yield Msg("open_run")
+        yield Msg("checkpoint")
+        yield Msg("set", m1, 1.0, group="mv")
+        yield Msg("checkpoint")
+        yield Msg("sleep", None, 0.02)
+        yield Msg("trigger", det, group="t")
+        yield Msg("wait", None, group="t")
+        yield Msg("create", name="primary")
+        yield Msg("read", det)
+        yield Msg("save")
+        yield Msg("checkpoint")
+        yield Msg("sleep", None, 0.01)
+        yield Msg("wait", None, group="mv")
+        yield Msg("set", m2, 1.0, group="mv2")
+        yield Msg("wait", None, group="mv2")
+        yield Msg("close_run")
+
+    return body()
+
+
+def p_locate2(h, d):
+    """'locate' in all its shapes: one device, one device unsqueezed, several devices at once; sync and async locate()."""
+    lm, a0, a1 = d["lm"], d["alm0"], d["alm1"]
+
+    def body():
+        yield Msg("open_run")
+        yield Msg("locate", lm)
+        yield Msg("locate", a0)
+        yield Msg("locate", a0, squeeze=False)
+        yield Msg("locate", a0, a1)
+        yield Msg("locate", lm, a1, a0)
+        yield Msg("null")
+        yield Msg("close_run")
+
+    return body()
 
 
 def p_clearcp(h, d):
@@ -634,6 +677,8 @@ CORPUS = {
     "nested": p_nested,
     "fly": p_fly,
     "clearcp": p_clearcp,
+    "locate2": p_locate2,
+    "late_wait": p_late_wait,
     "two_runs": p_two_runs,
     "rw_fail": p_run_wrapper_fail,
     "keys_a": make_keys_plan(1, 2),
